@@ -72,8 +72,19 @@ def opIdx : P (List String) := do
   for i in [0:R] do
     for a in [0:T] do
       dpos := dpos.push (Gen.getIndexSrc R 1 T i 0 a)
+  -- the two-index form `t(i,j)` of a tensor (the layer argument defaults to 0) and of its transposed view
+  let mut pos2 : Array Nat := #[]
+  for i in [0:R] do
+    for j in [0:C] do
+      pos2 := pos2.push (Gen.getIndexSrc R C T i j 0)
+  let mut tpos2 : Array Nat := #[]
+  for i in [0:C] do
+    for j in [0:R] do
+      let (i', j') := Gen.transposeArgs2 false i j
+      tpos2 := tpos2.push (Gen.getIndexSrc R C T i' j' 0)
   pure [kv "pos" (showNats pos.toList), kv "tpos" (showNats tpos.toList),
         kv "mpos" (showNats mpos.toList), kv "dpos" (showNats dpos.toList),
+        kv "pos2" (showNats pos2.toList), kv "tpos2" (showNats tpos2.toList),
         kv "size" (toString (R * C * T))]
 
 /-- `idxr kind R C T R2 C2 T2` — `resize` gives a zero tensor of the new shape (tensor.hpp:117-125);
